@@ -27,6 +27,49 @@ LAWS_CFG = os.path.join(common.SPECS, 'exact', 'MonoLawsGate.cfg')
 NOT_MONOMIAL = ['BGate', 'CHGate', 'ECRGate', 'HGate', 'SqrtCNOTGate', 'SqrtISwapGate', 'SqrtXGate/SXGate', 'SqrtXdgGate/SXdgGate',
                 'XXGate', 'YYGate', 'U2Gate', 'U8Gate', 'CKMGate', 'CKMdgGate', 'RSU3Gate', 'VariableUnitaryGate']
 
+# Exported names of bqskit.ir.gates that are NOT in the catalogue, with the reason (reported in the evidence, and checked against
+# the package's __all__ at run time so that a new export cannot go unnoticed).
+OUTSIDE = {
+    'BGate': 'never monomial', 'CHGate': 'never monomial', 'ECRGate': 'never monomial', 'HGate': 'never monomial',
+    'SqrtCNOTGate': 'never monomial', 'SqrtISwapGate': 'never monomial', 'SqrtXGate': 'never monomial', 'SXGate': 'never monomial',
+    'SqrtXdgGate': 'never monomial', 'SXdgGate': 'never monomial', 'XXGate': 'never monomial', 'YYGate': 'never monomial',
+    'U2Gate': 'never monomial (every entry has modulus 1/sqrt 2)',
+    'U1qPi2Gate': 'FrozenParameterGate(U1qGate, theta = pi/2): never monomial',
+    'PhasedXZGate': 'its parameters are exponents (turns); its only monomial points on the pi/4 lattice of the catalogue are the identity',
+    'VariableUnitaryGate': 'its parameters are matrix entries, not angles: no point of the pi/4 lattice is a unitary',
+    'MeasurementPlaceholder': 'no matrix (placeholder)', 'Reset': 'no matrix (placeholder)', 'BarrierPlaceholder': 'no matrix (placeholder)',
+    'ComposedGate': 'abstract base class', 'QuditGate': 'abstract base class', 'GeneralGate': 'abstract base class (Gate defined by a user expression)',
+}
+# exported name -> how the catalogue reaches it
+INSIDE_NAMED = {'XGate': 'X', 'YGate': 'Y', 'ZGate': 'Z', 'SGate': 'S', 'SdgGate': 'Sdg', 'TGate': 'T', 'TdgGate': 'Tdg', 'SqrtTGate': 'SqrtT',
+                'IdentityGate': 'I/IDN', 'CXGate': 'CX', 'CNOTGate': 'CX', 'CYGate': 'CY', 'CZGate': 'CZ', 'CSGate': 'CS', 'CTGate': 'CT',
+                'ISwapGate': 'ISWAP', 'SycamoreGate': 'Sycamore', 'ZZGate': 'ZZ', 'CCXGate': 'CCX', 'ToffoliGate': 'CCX',
+                'IToffoliGate': 'IToffoli', 'RCCXGate': 'RCCX', 'MargolusGate': 'RCCX', 'RC3XGate': 'RC3X', 'CPIGate': 'CPI',
+                'ShiftGate': 'Shift', 'ClockGate': 'Clock', 'SwapGate': 'SWAP', 'CSUMGate': 'CSUM', 'RZGate': 'RZ', 'U1Gate': 'U1',
+                'CPGate': 'CP', 'CRZGate': 'CRZ', 'RZZGate': 'RZZ', 'CCPGate': 'CCP', 'RXGate': 'RX', 'RYGate': 'RY', 'CRXGate': 'CRX',
+                'CRYGate': 'CRY', 'RXXGate': 'RXX', 'RYYGate': 'RYY', 'U1qGate': 'U1q', 'U3Gate': 'U3', 'CUGate': 'CU', 'FSIMGate': 'FSIM',
+                'ArbitraryCPhaseGate': 'ACP', 'DiagonalGate': 'DIAG', 'MPRZGate': 'MPRZ', 'MPRYGate': 'MPRY', 'PermutationGate': 'PERM',
+                'SubSwapGate': 'SUBSWAP'}
+INSIDE_COMPOSED = {'DaggerGate': 'dagger', 'PowerGate': 'power', 'TaggedGate': 'tagged', 'ControlledGate': 'controlled',
+                   'EmbeddedGate': 'embedded', 'FrozenParameterGate': 'frozen', 'CircuitGate': 'circuit', 'VariableLocationGate': 'vlg',
+                   'ConstantUnitaryGate': 'table', 'U1qPiGate': 'exported'}
+INSIDE_OBSERVED = {'PDGate': 'PD', 'CKMGate': 'CKM', 'CKMdgGate': 'CKMdg', 'RSU3Gate': 'RSU3', 'U8Gate': 'U8', 'PauliGate': 'Pauli',
+                   'PauliZGate': 'PauliZ'}
+
+
+def export_census():
+    """Every name bqskit.ir.gates exports is either reached by the catalogue or listed in OUTSIDE with a reason."""
+    from bqskit.ir import gates as G
+    names = list(G.__all__)
+    unknown = [n for n in names if n not in OUTSIDE and n not in INSIDE_NAMED and n not in INSIDE_COMPOSED and n not in INSIDE_OBSERVED]
+    if unknown:
+        raise common.MachineryError('bqskit.ir.gates exports names the C18 catalogue does not account for: %s' % unknown)
+    return {'exported': len(names),
+            'in_catalogue_with_matrix_definition': sorted(n for n in names if n in INSIDE_NAMED),
+            'in_catalogue_as_composition': sorted(n for n in names if n in INSIDE_COMPOSED),
+            'in_catalogue_observed_only': sorted(n for n in names if n in INSIDE_OBSERVED),
+            'outside_catalogue': {n: OUTSIDE[n] for n in names if n in OUTSIDE}}
+
 MANIFEST_ENTRY = dict(
     engine='exact',
     technique='TLA+ gate library and table algebra (specs/exact/Monomial.tla, GateLib.tla) evaluated by TLC over observations of the '
@@ -36,15 +79,22 @@ MANIFEST_ENTRY = dict(
          'its get_unitary, expression backend and get_unitary_and_grad()[0] are compared entry-wise (absolute phase) with the table '
          'the TLA+ gate library gives; dim/radixes/num_qudits/num_params/gradient shape are compared with what the construction has to '
          'advertise; DaggerGate, PowerGate (k=-3..4), ControlledGate (1-2 controls, radix 2-4, all level subsets), EmbeddedGate '
-         '(level maps), FrozenParameterGate (parameter subsets), TaggedGate, CircuitGate, IdentityGate, PermutationGate, '
-         'ConstantUnitaryGate and two-level nestings of them are compared with the TLA+ composition (Inverse, Power, Controlled, '
-         'Embedded, SemTable) of the observed tables of their parts; get_inverse() at get_inverse_params(p) composes to the identity; '
+         '(level maps), FrozenParameterGate (parameter subsets; also the exported U1qPiGate), TaggedGate, CircuitGate, '
+         'VariableLocationGate (location sets on 1-4 qudits, every location selected by one-hot location parameters, radixes given '
+         'or inferred), IdentityGate, PermutationGate, ConstantUnitaryGate and nestings of them up to depth 3 are compared with the '
+         'TLA+ composition (Inverse, Power, Controlled, Embedded, SemTable, and for VariableLocationGate the part conjugated by the '
+         'qudit permutation PermutationMatrix.from_qudit_location denotes, which the specification also checks against the '
+         'one-operation circuit semantics on every case) of the observed tables of their parts; gates without a matrix definition '
+         'here (CKMGate, CKMdgGate, RSU3Gate, U8Gate, PauliGate, PauliZGate, PDGate) take part at their exact-domain points as observed '
+         'parts and alone; for every named and composed case get_unitary_and_grad(p)[0] equals get_unitary(p) and its gradient part has '
+         'one dim x dim slice per parameter; get_inverse() at get_inverse_params(p) composes to the identity; '
          '== / hash of pairs of constructions are judged by a TLA+ predicate over the construction descriptors; monomial named '
          'gates are compared with the matrix Qiskit gives the same name. The table algebra the oracle relies on is model-checked '
          'exhaustively over all tables of dimension <= 3 (restricted phase set).',
     note='NOT decided (no exact domain): get_grad as the derivative of get_unitary, calc_params, optimize, generic real parameters, and the '
-         'matrices of the non-monomial gates ' + ', '.join(NOT_MONOMIAL) + ' (also PauliGate/PauliZGate/PhasedXZGate/PDGate whose '
-         'documentation does not fix one convention: used only as observed parts of compositions). Trusted: TLC, the discretiser in '
+         'matrices of the gates without exact-domain points (' + ', '.join(sorted(OUTSIDE)) + ') and the matrix *values* of '
+         'CKMGate/CKMdgGate/RSU3Gate/U8Gate/PauliGate/PauliZGate/PDGate (no definition in Monomial.tla: only their dimension, '
+         'unitary_and_grad consistency, inverse and their compositions are judged). Trusted: TLC, the discretiser in '
          'harness/exact.py (argmax, phase class in units of 2*pi/48, 1e-7 tolerance), the construction/observation code in '
          'harness/checks/c18.py.',
     ref='DESIGN.md section 4 / C18',
